@@ -185,6 +185,49 @@ def doc_checks(run):
     run.case(("agen",))
     if not inspect.isasyncgenfunction(mod.agen):
         run.violation("agen", "(defn :async agen [] (yield 1) 7) is not an asynchronous generator function", {})
+    # the yield anywhere in the function's own scope (HyBind!YieldPlaces): still a generator that returns its last
+    # form / an asynchronous generator that returns nothing
+    places = {"body": "(yield 1)", "let": "(let [q 0] (yield 1))", "let-let": "(let [q 0] (let [r 1] (yield 1)))",
+              "if": "(if True (yield 1) 0)", "when": "(when True (yield 1))", "for": "(for [q [1]] (yield q))",
+              "with": "(with [(cm)] (yield 1))", "try": "(try (yield 1) (finally 0))", "do": "(do 0 (yield 1))",
+              "setv-value": "(setv q (yield 1))"}
+    import contextlib
+
+    @contextlib.contextmanager
+    def cm():
+        yield 1
+    for place, form in places.items():
+        for head in ("defn g []", "defn :async g []", "fn []", "fn :async []"):
+            text = f"(setv F ({head} {form} 7))" if head.startswith("fn") else f"({head} {form} 7) (setv F g)"
+            run.case(("yield-place", place, head))
+            mod = types.ModuleType("hyv_yield")
+            mod.cm = cm
+            try:
+                hy.eval(hy.read_many(text), mod.__dict__, module=mod)
+            except Exception as x:
+                run.violation(f"yield:{place}:{head}", f"{text}: {type(x).__name__}: {x}; a yield inside {place} keeps the "
+                              f"function a generator, and an asynchronous generator has no return value", {"text": text})
+                continue
+            F = mod.F
+            if "async" in head:
+                ok = inspect.isasyncgenfunction(F)
+                got = "async generator" if ok else "not an async generator"
+            else:
+                ok = inspect.isgeneratorfunction(F)
+                got = "generator" if ok else "not a generator"
+                if ok:
+                    g = F()
+                    next(g)
+                    try:
+                        next(g)
+                        got, ok = "second value", False
+                    except StopIteration as s_:
+                        ok = s_.value == 7
+                        got = f"returns {s_.value!r}"
+            if not ok:
+                run.violation(f"yield:{place}:{head}", f"{text}: {got}", {"text": text})
+            else:
+                run.cov["traces_validated_against_impl"] += 1
 
 
 def main(run):
